@@ -21,6 +21,11 @@ MUTANTS = {
     'repaired_and': ('has_perm', [('ATTR_BRANCH', ATTR_BRANCH_AND), ('if x in rule.entities_to_exclude: continue', 'if entity in rule.entities_to_exclude: continue')]),
     'repaired_oneword': ('has_perm', [('for reverse_rule in access_rules:', 'for reverse_rule in reverse_rules:')]),
     'repaired_object': ('has_perm', [('if x in rule.entities_to_exclude: continue', 'if entity in rule.entities_to_exclude: continue')]),
+    # the next three are meant to be stacked on repaired_and ("repaired_and+r_...")
+    'r_attr_exclusion_dropped': ('has_perm', [('                        and attr not in rule.attrs_to_exclude: return True', '                        : return True')]),
+    'r_attr_entity_exclusion_dropped': ('has_perm', [('and attr.entity not in rule.entities_to_exclude \\\n', '\\\n')]),
+    'r_attr_reverse_ignored': ('has_perm', [('result = granted(x) and (not x.reverse or granted(x.reverse))', 'result = granted(x)')]),
+    'r_attr_either_side': ('has_perm', [('result = granted(x) and (not x.reverse or granted(x.reverse))', 'result = granted(x) or bool(x.reverse and granted(x.reverse))')]),
     'entity_exclusion_dropped': ('has_perm', [('if user_groups.issuperset(rule.groups) and entity not in rule.entities_to_exclude:', 'if user_groups.issuperset(rule.groups):')]),
     'groups_any_instead_of_all': ('has_perm', [('if user_groups.issuperset(rule.groups) and entity not in rule.entities_to_exclude:', "if (user_groups & rule.groups) and entity not in rule.entities_to_exclude:")]),
     'object_roles_dropped': ('has_perm', [('            elif not user_roles.issuperset(rule.roles): pass\n', '')]),
@@ -55,7 +60,11 @@ MUTANTS = {
 }
 
 
-def apply(core, name):
+def apply(core, names):
+    for name in names.split('+'): apply_one(core, name)
+
+
+def apply_one(core, name):
     fname, edits = MUTANTS[name]
     owner, attr = (core, fname) if '.' not in fname else (getattr(core, fname.split('.')[0]), fname.split('.')[1])
     fn = getattr(owner, attr)
@@ -70,7 +79,10 @@ def apply(core, name):
         src = src.replace(old, new)
     src = textwrap.dedent(src)
     ns = {}
-    exec(compile(src, '<mutant %s>' % name, 'exec'), core.__dict__, ns)
+    import linecache
+    filename = '<mutant %s>' % name
+    linecache.cache[filename] = (len(src), None, src.splitlines(True), filename)     # so that mutants can be stacked
+    exec(compile(src, filename, 'exec'), core.__dict__, ns)
     new_fn = ns[attr]
     setattr(owner, attr, new_fn)
     if owner is core:
